@@ -1,9 +1,11 @@
 /-
   Driver/Main.lean — command-line driver of the executable model (`inkmodel`).
     inkmodel audit <story.json>     audit rows of the model (C19 / C14 / C06 tie)
+    inkmodel saudit <story.json>    the same rows, tree built by the model of the streaming loader (Ink/StreamLoad.lean)
     inkmodel pathprobe              path texts (JSON strings) on stdin
 -/
 import Ink.Audit
+import Ink.StreamLoad
 import Driver.Play
 import Driver.Expr
 import Ink.Explore
@@ -22,6 +24,20 @@ def auditCmd (path : String) : IO Unit := do
   let doc := Json.parse cs
   let out ← IO.getStdout
   match Load.loadStory (2 * cs.length + 16) doc with
+  | .ok ld =>
+    match Audit.rows ld.root (2 * cs.length + 16) with
+    | some rows =>
+      for r in rows do out.putStrLn r.render
+      out.putStrLn (Json.obj [("t", .str "wf"), ("tree", .bool (wfTreeB (2 * cs.length + 16) ld.root))]).render
+    | none => out.putStrLn (Json.obj [("t", .str "panic")]).render
+  | .err k m => out.putStrLn (Json.obj [("t", .str "loaderr"), ("k", .str k), ("m", .str m)]).render
+  | .panic s => out.putStrLn (Json.obj [("t", .str "panic"), ("site", .str s)]).render
+
+/-- `saudit <file>`: the rows of `audit`, the tree being built by the model of the streaming loader. -/
+def sauditCmd (path : String) : IO Unit := do
+  let cs ← readFileChars path
+  let out ← IO.getStdout
+  match StreamLoad.load cs with
   | .ok ld =>
     match Audit.rows ld.root (2 * cs.length + 16) with
     | some rows =>
@@ -101,6 +117,7 @@ def main (args : List String) : IO UInt32 := do
   match args with
   | ["play", script] => playCmd script; pure 0
   | ["audit", path] => auditCmd path; pure 0
+  | ["saudit", path] => sauditCmd path; pure 0
   | ["expr", path] => exprCmd path; pure 0
   | ["refcheck", path] => refcheckCmd path; pure 0
   | ["source", path] => sourceCmd path; pure 0
